@@ -6,7 +6,7 @@ From Coq Require Import ZArith List Bool Relations.Relation_Operators.
 Import ListNotations.
 From ClapModel Require Import Base.Bytes Base.Machine.
 From ClapModel Require Import Parse.Cmd Parse.Build Parse.Valid Parse.Matcher Parse.Errors Parse.Validator Parse.Parser.
-From ClapModel Require Import ParseProofs.Relations ParseProofs.RelationsTree ParseProofs.RelationsClauses ParseProofs.RelationsComplete ParseProofs.RelationsFamilies ParseProofs.RelationsCoherent ParseProofs.RelationsLoop.
+From ClapModel Require Import ParseProofs.Relations ParseProofs.RelationsTree ParseProofs.RelationsClauses ParseProofs.RelationsComplete ParseProofs.RelationsFamilies ParseProofs.RelationsCoherent ParseProofs.RelationsLoop ParseProofs.RelationsCompleteAll ParseProofs.RelationsClauses3.
 From ClapModel Require Import ParseProofs.ValidateTotal.
 From ClapModel Require Import ParseProofs.Safe ParseProofs.Invariant ParseProofs.Totality ParseProofs.TotalityMain ParseProofs.IndexInv.
 From ClapModel Require Import ParseProofs.Globals.
@@ -632,3 +632,157 @@ Theorem C03_along_nonvacuous :
   /\ out_kind (do_parse al_cmd [[116]]) = Some EMissingRequiredArgument.
 Proof. exact along_nonvacuous. Qed.
 Print Assumptions C03_along_nonvacuous.
+
+(** ---------------------------------------------------------------------------------------
+    ROUND 3, COMPLETENESS FOR EVERY RELATION GRAPH (ParseProofs/RelationsCompleteAll.v): [requires] /
+    [requires_if] chains (through the exact requirement set), required groups, group [requires], the
+    [requires] of a present group and all conditional rule families.  No class restriction on the
+    definition any more ([static_only] is gone). *)
+
+(** if (R3) holds as the specification states it, [validate_required] finds nothing missing *)
+Theorem C03_missing_required_complete : forall c, rel_wf c = true -> forall mt potential,
+  fm_wf mt -> conflicts_with_args c mt = Some potential ->
+  (forall p, In p (positionals c) -> a_index p <> None) ->
+  (forall x, Required c mt (present mt) x -> satisfied c (present mt) x) ->
+  (forall a, In a (c_args c) -> cond_required mt (present mt) a ->
+             present mt (a_id a) \/ exclusive_present c (present mt)) ->
+  missing_required c mt potential = Some [].
+Proof. exact missing_required_complete. Qed.
+Print Assumptions C03_missing_required_complete.
+
+(** the validator accepts every matcher that satisfies the specification ... *)
+Theorem C03_validate_complete : forall c, rel_wf c = true -> forall mt,
+  fm_wf mt -> keys_ok c (mt_args mt) ->
+  (forall p, In p (positionals c) -> a_index p <> None) ->
+  negb (is_some (mt_sub mt)) && is_set s_arg_required_else_help c && is_nil (explicit_entries mt) = false ->
+  negb (is_some (mt_sub mt)) && is_set s_sub_required c = false ->
+  Relations c mt -> validate c mt = VOk.
+Proof. exact validate_complete. Qed.
+Print Assumptions C03_validate_complete.
+
+(** ... never answers MissingRequiredArgument for it ([C03_no_false_conflict] is the other kind) ... *)
+Theorem C03_no_false_missing : forall c, rel_wf c = true -> forall mt,
+  fm_wf mt -> keys_ok c (mt_args mt) -> (forall p, In p (positionals c) -> a_index p <> None) ->
+  Relations c mt -> forall a, validate c mt <> VErr EMissingRequiredArgument a.
+Proof. exact validate_no_missing_error. Qed.
+Print Assumptions C03_no_false_missing.
+
+(** ... and IS the specification: any graph, any well-formed matcher (the two checks that are not
+    relations -- help-on-empty-argv, subcommand-required -- set aside) *)
+Theorem C03_validate_iff : forall c mt,
+  assert_app c = true -> fm_wf mt -> keys_ok c (mt_args mt) ->
+  (forall p, In p (positionals c) -> a_index p <> None) ->
+  negb (is_some (mt_sub mt)) && is_set s_arg_required_else_help c && is_nil (explicit_entries mt) = false ->
+  negb (is_some (mt_sub mt)) && is_set s_sub_required c = false ->
+  (validate c mt = VOk <-> Relations c mt).
+Proof. exact validate_iff. Qed.
+Print Assumptions C03_validate_iff.
+
+(** on the parser's own states the side conditions are discharged by the loop invariant *)
+Theorem C03_validate_iff_invariant : forall c st,
+  wfc c -> assert_app c = true -> G c idx_inv trivV st ->
+  negb (is_some (mt_sub (mt st))) && is_set s_arg_required_else_help c && is_nil (explicit_entries (mt st)) = false ->
+  negb (is_some (mt_sub (mt st))) && is_set s_sub_required c = false ->
+  (validate c (mt st) = VOk <-> Relations c (mt st)).
+Proof. exact validate_iff_invariant. Qed.
+Print Assumptions C03_validate_iff_invariant.
+
+(** ---------------------------------------------------------------------------------------
+    ROUND 3, THREE CLAUSES MADE EXPLICIT (ParseProofs/RelationsClauses3.v) *)
+
+(** (a) a conflict declared by a group against another GROUP reaches the members of both, for
+    [multiple] groups too: member-based reading, the matcher's own entries, and the code fact *)
+Theorem C03_clause_group_conflicts_group_members : forall c mt,
+  RelationsM c mt -> forall i a g h gh j,
+  arg_of c i a -> member c i g -> In h (g_conflicts g) -> group_of c h gh -> In j (g_args gh) ->
+  present mt i -> present mt j -> False.
+Proof. exact clause_group_conflicts_group_members. Qed.
+Print Assumptions C03_clause_group_conflicts_group_members.
+
+Theorem C03_clause_group_conflicts_group_entry : forall c mt,
+  Relations c mt -> forall i a g h gh,
+  arg_of c i a -> member c i g -> In h (g_conflicts g) -> group_of c h gh ->
+  present mt i -> present mt h -> False.
+Proof. exact clause_group_conflicts_group_entry. Qed.
+Print Assumptions C03_clause_group_conflicts_group_entry.
+
+Theorem C03_direct_conflicts_multiple_group : forall c, rel_wf c = true -> forall i a g h conf,
+  arg_of c i a -> member c i g -> g_multiple g = true -> In h (g_conflicts g) ->
+  gather_direct_conflicts c i = Some conf -> In h conf.
+Proof. exact direct_conflicts_multiple_group. Qed.
+Print Assumptions C03_direct_conflicts_multiple_group.
+
+(** (b) [required_if_eq*] and [required_unless_present*] on one argument: either family demands it *)
+Theorem C03_clause_required_if_unless_union : forall c mt, Relations c mt -> negates_reqs c mt = false ->
+  forall a, In a (c_args c) -> if_fires mt a \/ unless_fires mt a ->
+  present mt (a_id a) \/ exclusive_present c (present mt).
+Proof. exact clause_required_if_unless_union. Qed.
+Print Assumptions C03_clause_required_if_unless_union.
+
+Theorem C03_clause_required_if_despite_unless : forall c mt, Relations c mt -> negates_reqs c mt = false ->
+  forall a o v u, In a (c_args c) -> In (o, v) (a_r_ifs a) -> has_value mt o v ->
+  In u (a_r_unless a) -> present mt u ->
+  present mt (a_id a) \/ exclusive_present c (present mt).
+Proof. exact clause_required_if_despite_unless. Qed.
+Print Assumptions C03_clause_required_if_despite_unless.
+
+Theorem C03_clause_required_unless_despite_if : forall c mt, Relations c mt -> negates_reqs c mt = false ->
+  forall a, In a (c_args c) -> a_r_unless a <> [] -> a_r_unless_all a = [] ->
+  (forall o, In o (a_r_unless a) -> ~ present mt o) ->
+  (forall o v, In (o, v) (a_r_ifs a) -> ~ has_value mt o v) ->
+  present mt (a_id a) \/ exclusive_present c (present mt).
+Proof. exact clause_required_unless_despite_if. Qed.
+Print Assumptions C03_clause_required_unless_despite_if.
+
+(** the boolean the validator computes for the conditional rules is exactly that union *)
+Theorem C03_conditional_union_exact : forall mt a,
+  cond_b mt a = true <-> if_fires mt a \/ unless_fires mt a.
+Proof. exact cond_b_is_union. Qed.
+Print Assumptions C03_conditional_union_exact.
+
+(** (c) [Equals] reads every stored occurrence of the condition argument *)
+Theorem C03_clause_required_if_eq_any_occurrence : forall c mt, Relations c mt -> negates_reqs c mt = false ->
+  forall a o v m grp, In a (c_args c) -> In (o, v) (a_r_ifs a) ->
+  fm_get o (mt_args mt) = Some m -> m_source m <> Some SDefault -> m_ignore_case m = false ->
+  In grp (m_raw m) -> In v grp ->
+  present mt (a_id a) \/ exclusive_present c (present mt).
+Proof. exact clause_required_if_eq_any_occurrence. Qed.
+Print Assumptions C03_clause_required_if_eq_any_occurrence.
+
+Theorem C03_clause_requires_if_any_occurrence : forall c mt, Relations c mt -> negates_reqs c mt = false ->
+  forall i a m v y b grp, arg_of c i a -> fm_get i (mt_args mt) = Some m -> In (PEquals v, y) (a_requires a) ->
+  m_source m <> Some SDefault -> m_ignore_case m = false -> In grp (m_raw m) -> In v grp ->
+  arg_of c y b -> arg_satisfied c mt y.
+Proof. exact clause_requires_if_any_occurrence. Qed.
+Print Assumptions C03_clause_requires_if_any_occurrence.
+
+(** witnesses (replayed on the real crate: corpus/C03/relgraph.round3-witnesses.cases): a definition
+    outside [static_only] with every rule family; accepted and rejected lines for each of them *)
+Theorem C03_complete_all_witnesses :
+  valid ca_cmd = true /\ static_only (build_self ca_cmd) = false /\ pos_indexed_b (build_self ca_cmd) = true
+  /\ lvl_wf ca_cmd [mm; dd [112;112]; dd [117;117]] = true
+  /\ lvl_verdict ca_cmd [mm; dd [112;112]; dd [117;117]] = Some VOk
+  /\ lvl_wf ca_cmd full_line = true /\ lvl_verdict ca_cmd full_line = Some VOk
+  /\ lvl_verdict ca_cmd [mm; dd [97;97]; dd [98;98]; ww; dd [121;121]; dd [111;111]; vv]
+     = Some (VErr EMissingRequiredArgument j_p)
+  /\ lvl_verdict ca_cmd [mm; dd [117;117]] = Some (VErr EMissingRequiredArgument j_p)
+  /\ lvl_verdict ca_cmd [mm; dd [97;97]; dd [98;98]; xx; dd [121;121]; dd [111;111]; vv; dd [111;111]; xx]
+     = Some (VErr EMissingRequiredArgument j_p)
+  /\ lvl_verdict ca_cmd [mm; dd [97;97]; dd [98;98]; ww; dd [121;121]; dd [111;111]; vv; dd [112;112]]
+     = Some (VErr EMissingRequiredArgument j_q)
+  /\ lvl_verdict ca_cmd [mm; dd [97;97]; dd [98;98]; vv; dd [111;111]; xx]
+     = Some (VErr EMissingRequiredArgument j_y)
+  /\ lvl_verdict ca_cmd [dd [112;112]; dd [117;117]] = Some (VErr EMissingRequiredArgument j_G)
+  /\ lvl_verdict ca_cmd [mm; dd [112;112]; dd [117;117]; dd [107;107]] = Some (VErr EMissingRequiredArgument j_y)
+  /\ lvl_verdict ca_cmd [mm; dd [112;112]; dd [117;117]; dd [121;121]; dd [107;107]; dd [110;110]]
+     = Some (VErr EArgumentConflict j_k).
+Proof. exact complete_all_witnesses. Qed.
+Print Assumptions C03_complete_all_witnesses.
+
+(** completeness used backwards: the matcher of a line the validator rejects does NOT satisfy the
+    specification *)
+Theorem C03_union_line_breaks_relations :
+  exists e st, run_level ca_cmd [mm; dd [97;97]; dd [98;98]; ww; dd [121;121]; dd [111;111]; vv] = RErr e st
+    /\ ~ Relations (build_self ca_cmd) (mt st).
+Proof. exact union_line_breaks_relations. Qed.
+Print Assumptions C03_union_line_breaks_relations.
